@@ -173,7 +173,8 @@ def merge(m, res, job):
         else:
             m["counters"][k] = m["counters"].get(k, 0) + v
     for k, v in (res.get("scenarios") or {}).items():
-        m["scenarios"][k] = v
+        # several jobs (build variants) may run the same scenario: it holds only if it holds in all of them
+        m["scenarios"][k] = (m["scenarios"].get(k) or []) + [x for x in v if x not in (m["scenarios"].get(k) or [])]
     for k, v in (res.get("misuse") or {}).items():
         m["misuse"][k] = m["misuse"].get(k, 0) + v
     for k, v in (res.get("methods") or {}).items():
